@@ -211,6 +211,19 @@ def enumerate_cases(tier):
                        "chunks": [[0, s], [1, t], [0, 100], [1, 8],
                                   [2, 100], [1, 100]],
                        "crash": None}
+    # long runs of unlucky draws: the random number generator hands a
+    # newcomer the window (the EtherType) of a participant that is running
+    # again and again before it comes up with a free one
+    for repeat in (3, 300, 4095, 4096, 4100, 70000):
+        yield {"participants": [dict(stay),
+                                dict(base, win=[1, 2, 3], win_repeat=repeat)],
+               "chunks": [[0, 30], [1, 100000], [0, 100000]], "crash": None}
+    for repeat in (2, 50, 99, 100, 101, 150):
+        yield {"participants": [dict(stay), dict(stay),
+                                dict(base, eth=[0x3000, 0x3001],
+                                     eth_repeat=repeat)],
+               "chunks": [[0, 30], [1, 40], [2, 100000], [0, 100000],
+                          [1, 100000]], "crash": None}
     if tier != "thorough":
         return
     # three participants: P0 is interrupted somewhere in its stop, P1 runs t1
@@ -271,7 +284,9 @@ class World:
         pool = self.case["participants"][pid]["eth"]
         i = self.rand.get(("e", pid), 0)
         self.rand["e", pid] = i + 1
-        return pool[i % len(pool)]
+        # "eth_repeat": the first number comes up that many times in a row
+        r = self.case["participants"][pid].get("eth_repeat", 1)
+        return pool[0] if i < r else pool[(i - r + 1) % len(pool)]
 
     def randrange_win(self, a, b=None):
         pid = self.s.pid()
@@ -281,6 +296,10 @@ class World:
         # windows of participants that left (except the last one) stay
         # reserved: after the pool, go on with fresh numbers so that the
         # library's search for a free window ends
+        r = self.case["participants"][pid].get("win_repeat", 1)
+        if i < r:
+            return pool[0]
+        i -= r - 1
         return pool[i] if i < len(pool) else 6 + (i - len(pool)) % 500
 
 
